@@ -59,6 +59,7 @@ func (fgen *funcGen) newShuffleVectorInst(ident ir.LocalIdent, old *ast.ShuffleV
 		panic(fmt.Errorf("invalid vector type; expected *types.VectorType, got %T", maskType))
 	}
 	typ := types.NewVector(mt.Len, xt.ElemType)
+	typ.Scalable = mt.Scalable
 	return &ir.InstShuffleVector{LocalIdent: ident, Typ: typ}, nil
 }
 
